@@ -5,7 +5,7 @@ import vlib
 
 META = {
     "category": "model_checking",
-    "text": "Xfr.tla transcribes the transfer sender (AXFR/IXFR sequences, any packaging into messages), XfrResponseInterpreter (check_response, process_record, the update iterator), ZoneUpdater::apply on committed+pending content and the commit-time diff capture, next to a declarative reading of a record stream after RFC 5936 2.2 / RFC 1995 4. TLC checks, for every old/new zone pair over a small record universe, every packaging into up to three messages and every single message fault (drop, duplicate, swap, truncate, header corruption, wrong question) at every position, that transfers reproduce the sender's zone, that every version a reader can see is one the stream completely described, that reported diffs applied to the old content give the new content, and that invalid streams end in an error without panic. Every explored stream is rendered with the real MessageBuilder and replayed through the real interpreter + updater on a real in-memory zone (updates, errors, diffs and walk() content compared after every message); recorded runs of the real XfrMiddlewareSvc sender (AXFR and IXFR from every serial, multi-message) are validated by TLC against the model and fed back through the real receiver.",
+    "text": "Xfr.tla transcribes the transfer sender (AXFR/IXFR sequences, any packaging into messages), XfrResponseInterpreter (check_response, process_record, the update iterator), ZoneUpdater::apply on committed+pending content and the commit-time diff capture, next to a declarative reading of a record stream after RFC 5936 2.2 / RFC 1995 4. TLC checks, for every old/new zone pair over a small record universe, every packaging into up to three messages and every single message fault (drop, duplicate, swap, truncate, header corruption, wrong question, a SOA with the same serial but other RDATA) at every position, that transfers reproduce the sender's zone, that every version a reader can see is one the stream completely described, that reported diffs applied to the old content give the new content, and that invalid streams end in an error without panic. Every explored stream is rendered with the real MessageBuilder and replayed through the real interpreter + updater on a real in-memory zone (updates, errors, diffs and walk() content compared after every message); recorded runs of the real XfrMiddlewareSvc sender (AXFR and IXFR from every serial, multi-message) are validated by TLC against the model and fed back through the real receiver.",
     "note": "Trusted: TLC, the transcription in Xfr.tla, the harness projections. Four named deviations are open (interpreter panic on a non-XFR question type, duplicate RRs kept, commit diff not the net change, IXFR SOA chain unchecked); their cases are classified KNOWN only when the real code behaves exactly as the deviant model. Record order inside transfers is ascending in generated cases (hash order in recorded ones); all TTLs are equal; TSIG, the client transports and the sender's batcher internals are outside the model; an IXFR answer whose first message holds only the SOA is by design read as the RFC 1995 retry signal and such packagings are excluded.",
     "technique": "TLA+ spec (Xfr.tla) + TLC exhaustive over histories x packagings x single faults; spec->impl behaviour replay; impl->spec trace validation of the real sender and receiver",
     "design_ref": "DESIGN.md §4 C10",
@@ -74,7 +74,7 @@ def run(ctx):
                     d, g = ctx.coverage_actions.get(key, (0, 0))
                     ctx.coverage_actions[key] = (d + 1, g + 1)
 
-    need = ["fault:" + f for f in ("none", "drop", "dup", "swap", "trunc", "hdr", "wrongq")] + \
+    need = ["fault:" + f for f in ("none", "drop", "dup", "swap", "trunc", "hdr", "wrongq", "csoa")] + \
            ["kind:" + k for k in ("axfr", "ixfr1", "ixfr2", "fallback", "uptodate")]
     missing = [n for n in need if ctx.coverage_actions.get(n, (0, 0))[1] == 0]
     if missing:
@@ -92,10 +92,13 @@ def run(ctx):
         if any(e["ev"] == "xfer_failed" for e in evs) or not any(e["ev"] == "xfer" for e in evs):
             raise vlib.ToolError("record_xfr could not drive the sender: " + str(
                 [e for e in evs if e["ev"] == "xfer_failed"][:2]))
-        ok, res, rej = ctx.validate_trace("Trace_Xfr", "Trace_Xfr", tr, label="trace-%d" % i)
+        ok, res, rej = ctx.validate_trace("Trace_Xfr", "Trace_Xfr", tr, label="trace-%d" % i,
+                                          env=_dev_env(ctx))
         ctx.traces += 1
         if not ok:
             ctx.violation("recorded sender/receiver run is not explained by Xfr.tla", rej)
+        if not any(e["ev"] == "xfer_bad" for e in evs):
+            raise vlib.ToolError("no corrupted-closing-SOA stream was recorded")
         if i == 0:
             multi = sum(1 for e in evs if e["ev"] == "xfer" and len(e["msgs"]) > 1)
             if multi == 0:
@@ -114,7 +117,7 @@ def run(ctx):
                         break
                 vlib.write_ndjson(bad, evs2)
                 ok2, _, _ = ctx.validate_trace("Trace_Xfr", "Trace_Xfr", bad,
-                                               label="trace-selftest-" + what)
+                                               label="trace-selftest-" + what, env=_dev_env(ctx))
                 ctx.selftest("corrupted trace (%s) is rejected by Trace_Xfr" % what, not ok2)
 
     ctx.assume("record universe: 4 owner names (apex, child, name below the child, name below an empty non-terminal) x {A, TXT} x 2 values; all TTLs equal; SOA identified by its serial")
